@@ -5,7 +5,7 @@ from vf.cli import run_shards
 from vf.sim import monitors as M
 from vf.sim.driver import replay_case, PREFIXES, is_dest
 from vf.sim.explore import explore
-from vf.sim.world import Scratch, AUTHOR, AUTHOR2, PEER1, PEER2
+from vf.sim.world import Scratch, AUTHOR, AUTHOR2, PEER1, PEER2, ADMIN, ROBOT
 
 LEVEL = 'exploration'
 RULE = ('Two generated scenario families on real Bert-E + real git. (a) A '
@@ -160,8 +160,12 @@ def body(data, hist):
            {'op': 'pr_event', 'pr': P}]
     hist.apply({'op': 'probe_path', 'slot': 'never_held', 'pr': P,
                 'steps': lift + rnd + rnd + rnd})
+    # the hold is a property of the pull request, whoever wrote the comment
+    holder = pick((AUTHOR, AUTHOR, PEER1, ADMIN, ROBOT, ROBOT), 'holder')
+    hist.flags.add('c12_hold_by_' + ('robot_account' if holder == ROBOT
+                                     else 'a_person'))
     for t in texts:
-        hist.apply({'op': 'comment', 'pr': P, 'user': AUTHOR, 'text': t})
+        hist.apply({'op': 'comment', 'pr': P, 'user': holder, 'text': t})
     n = data.draw(st.integers(2, 5), label='nheld')
     for _ in range(n):
         k = data.draw(st.integers(0, 5), label='held_op')
@@ -190,7 +194,8 @@ def body(data, hist):
     if kind in ('wait', 'wait_slash', 'dep_unknown', 'dep_nonnumeric',
                 'dep_declined', 'dep_merged'):
         for i in range(len(texts)):
-            hist.apply({'op': 'delete_comment', 'pr': P, 'nth': 0})
+            hist.apply({'op': 'delete_comment', 'pr': P, 'nth': 0,
+                        'holds': True})
     if kind in ('dep_two', 'dep_two_one_comment') and len(deps) == 2:
         # one dependency merged, the other still open: P must still be held
         for s in merge_steps(hist, deps[0]):
